@@ -33,6 +33,7 @@ int    verif_fs_exists(const char *name);                // file-system model of
 long   verif_fs_size(const char *name);
 void   verif_fs_put(const char *name, const char *data, long n);
 void   verif_fs_truncate(const char *name, long n);
+int    verif_fs_complete(const char *name);              // 1 iff the file exists and was closed after its last (re)opening and all writes (native: exists)
 void   verif_fs_fail(const char *op, int times);         // make the next calls of "rename" / "open" fail
 void   verif_fs_trace_begin(void);
 int    verif_fs_crash_consistent(const char *name, const char *backup);  // number of crash points of the recorded trace without a complete state
